@@ -69,9 +69,11 @@ CFG_K3 = [
     _cfg(3, [1, 2, 2], [2, 1, 2], [1, 2, 1], jp=True, amps=1),           # 17
 ]
 CFGS = CFG_K2 + CFG_K3
-QUICK_COUNTS = {1: 44, 2: 44, 3: 36, 4: 32, 5: 44, 6: 36, 7: 40, 8: 36, 9: 20}
-THOROUGH_COUNTS = {1: 160, 2: 160, 3: 120, 4: 120, 5: 160, 6: 120, 7: 160, 8: 120, 9: 100,
-                   10: 600, 11: 400, 12: 300, 13: 400, 14: 300, 15: 400, 16: 300, 17: 300}
+# (first configuration, last configuration, case numbers 1..n): one TLC process per entry (and per 100 cases)
+QUICK_COUNTS = [(1, 1, 44), (2, 2, 44), (3, 4, 34), (5, 5, 44), (6, 6, 36), (7, 7, 40), (8, 9, 28)]
+THOROUGH_COUNTS = [(1, 1, 160), (2, 2, 160), (3, 3, 120), (4, 4, 120), (5, 5, 160), (6, 6, 120), (7, 7, 160), (8, 8, 120),
+                   (9, 9, 100), (10, 10, 600), (11, 11, 400), (12, 12, 300), (13, 13, 400), (14, 14, 300), (15, 15, 400),
+                   (16, 16, 300), (17, 17, 300)]
 
 # Chains: one channel object and one solver object serve the consecutive cases.  The partitions of a chain have
 # the same number of users / sources and the same antenna TOTALS but different per-user counts (a stale per-antenna
@@ -90,8 +92,9 @@ CHAINS = [
     dict(parts=[_cfg(3, [1, 2, 2], [2, 2, 1], [1, 2, 1], nte=[1], jp=True, amps=1),
                 _cfg(3, [2, 2, 1], [1, 2, 2], [2, 1, 1], nte=[1], jp=True, amps=1)], ops=_OPS_CHAN),            # 7 K = 3 JP + ext
 ]
-QUICK_CHAINS = {1: 18, 2: 6, 3: 6, 4: 6, 5: 9}          # chain configuration -> chain numbers 0..n-1
-THOROUGH_CHAINS = {1: 54, 2: 30, 3: 30, 4: 30, 5: 54, 6: 54, 7: 30}
+# (first chain configuration, last, chain numbers 0..n-1)
+QUICK_CHAINS = [(1, 1, 12), (2, 4, 5), (5, 5, 6)]
+THOROUGH_CHAINS = [(1, 1, 54), (2, 2, 30), (3, 3, 30), (4, 4, 30), (5, 5, 54), (6, 6, 54), (7, 7, 30)]
 
 # where each deviation flag is exposed: ("star", clo, chi) or ("chain", hlo, hhi)
 DEV_WHERE = {"OwnStreamNotSubtracted": ("star", 1, 1), "NoiseNotFiltered": ("star", 1, 1), "ExtIntPowerIgnored": ("star", 5, 6),
@@ -327,9 +330,10 @@ def compare(sess, case):
     got = guarded(name, lambda: getattr(ch, jname)(fullF, Uo, **pekw))
     if got is not None:
         cmp_rows(name, got, sinr)
-    got = guarded(name + " with list arguments", lambda: getattr(ch, jname)(list(fullF), list(U), **pekw))
-    if got is not None:
-        cmp_rows(name + " with list arguments", got, sinr)
+    if variant == 1:
+        got = guarded(name + " with list arguments", lambda: getattr(ch, jname)(list(fullF), list(U), **pekw))
+        if got is not None:
+            cmp_rows(name + " with list arguments", got, sinr)
     for k in range(K):
         got = guarded(qname, lambda: getattr(ch, qmeth)(k, fullF, **pekw))
         if got is not None:
@@ -476,28 +480,30 @@ def run_unit(unit):
 def plan(tier):
     """TLC jobs: (label, clo, chi, lo, hi, hlo, hhi)"""
     jobs = []
-    nch = 6
+    thorough = tier == "thorough"
+    nch = 8 if thorough else 4
     chunk = EXH_COUNT // nch
     for i in range(nch):
         jobs.append((f"exhaustive-1x1/{i}", 0, 0, i * chunk, (i + 1) * chunk - 1, 1, 0))
-    thorough = tier == "thorough"
-    counts = THOROUGH_COUNTS if thorough else QUICK_COUNTS
-    step = 100 if thorough else 48
-    for ci, cnt in counts.items():
+    for c1, c2, cnt in (THOROUGH_COUNTS if thorough else QUICK_COUNTS):
         lo = 1
         while lo <= cnt:
-            hi = min(cnt, lo + step - 1)
-            jobs.append((f"seeded/cfg{ci}/{lo}-{hi}", ci, ci, lo, hi, 1, 0))
+            hi = min(cnt, lo + 99)
+            jobs.append((f"seeded/cfg{c1}-{c2}/{lo}-{hi}", c1, c2, lo, hi, 1, 0))
             lo = hi + 1
-    for hci, cnt in (THOROUGH_CHAINS if thorough else QUICK_CHAINS).items():
-        step = 18
+    for h1, h2, cnt in (THOROUGH_CHAINS if thorough else QUICK_CHAINS):
         lo = 0
         while lo < cnt:
-            hi = min(cnt - 1, lo + step - 1)
-            jobs.append((f"chain/cfg{hci}/{lo}-{hi}", 1, 0, lo, hi, hci, hci))
+            hi = min(cnt - 1, lo + 17)
+            jobs.append((f"chain/cfg{h1}-{h2}/{lo}-{hi}", 1, 0, lo, hi, h1, h2))
             lo = hi + 1
-    # longest first
-    jobs.sort(key=lambda j: -(j[4] - j[3] + 1) * (1 if j[1] == 0 and j[5] > j[6] else (60 if j[5] <= j[6] else 12)))
+
+    def weight(j):     # rough cost: longest first
+        ncase = j[4] - j[3] + 1
+        if j[5] <= j[6]:
+            return ncase * (j[6] - j[5] + 1) * 60
+        return ncase * (1 if j[1] == 0 else 12 * (j[2] - j[1] + 1))
+    jobs.sort(key=lambda j: -weight(j))
     return jobs
 
 
